@@ -19,7 +19,8 @@ Import ListNotations.
 (* From every reachable state in which a terminating stimulus has occurred (the group context
    is cancelled - Close() took effect, or a loop failed: write error, read error / peer EOF,
    unparsable line, ping timeout -, Close() has been called, the QUIT has been written, the
-   peer has closed, or an ERROR has been dequeued by the normal branch of execLoop), every
+   peer has closed, an ERROR has been dequeued by the normal branch of execLoop, or - earlier
+   still - an ERROR sits in the receive queue or a QUIT in the send queue), every
    schedule reaches Returned within `measure s` steps, environment actions included, and
    until then some goroutine of the library can always move: no schedule runs for ever and
    none blocks. *)
@@ -131,6 +132,14 @@ Theorem C07_reconnect_no_stale : forall b tr s,
   (forall e, In e (enqueued_of tr) -> In e (sent_of tr)).
 Proof. exact reconnect_no_stale. Qed.
 Print Assumptions C07_reconnect_no_stale.
+
+(* ... nor does anything an earlier connection had queued for sending: whatever the peer of a
+   connection reads is one of this connection's registration lines, something handed to Send
+   after this Connect was called, or a PING of its ping loop *)
+Theorem C07_reconnect_no_stale_output : forall b tr s o s',
+  exec b tr s -> live s = true -> step s (LPeerRecv o) s' -> In o (outs_of tr).
+Proof. exact no_stale_output. Qed.
+Print Assumptions C07_reconnect_no_stale_output.
 
 (* ---- the trace checker of the correspondence ---- *)
 (* a trace `accepts` accepts is the visible part of a trace of the machine *)
